@@ -22,8 +22,8 @@ package zzref
 // full header chain in that same frame; every record field equals that frame's field.
 //
 // Findings are keyed "<proto>:<kind>:<frame name>[-after-...]" and grouped into root-cause classes
-// "<proto>:<kind>:<reference's reason>". Per class only the C06KeepPerClass smallest witnesses are
-// reported. To make that choice independent of the sharding, families (a) and (c) are *evaluated by
+// "<proto>:<kind>:<reference's reason>". Per class only the C06KeepPerClass smallest witnesses that
+// differ in the reason's value or the link mode are reported. To make that choice independent of the sharding, families (a) and (c) are *evaluated by
 // every shard* (cheap: a few 10^5 frames) but *counted* only by the shard that owns the case index;
 // (b), (b2) and (d) are evaluated by their owner only and report a witness only for a class that
 // (a)+(c) did not already exhibit.
@@ -97,10 +97,12 @@ type C06Env struct {
 	Fail          func(key, desc string, replay any)
 	Sample        func(v any)
 	Add           func(k string, n int64)
+	Infra         func(f string, a ...any)
 }
 
 type c06Finding struct {
 	Class, Key, Desc string
+	Detail           string // the reference's reason with its value + link mode: witnesses of one class must differ in it
 	Size, Ord        int
 	Replay           any
 }
@@ -116,9 +118,7 @@ func (c *c06Collector) add(f c06Finding) {
 			return
 		}
 	}
-	l = append(l, f)
-	sort.SliceStable(l, func(i, j int) bool {
-		a, b := l[i], l[j]
+	less := func(a, b c06Finding) bool {
 		if a.Size != b.Size {
 			return a.Size < b.Size
 		}
@@ -126,7 +126,20 @@ func (c *c06Collector) add(f c06Finding) {
 			return a.Ord < b.Ord
 		}
 		return a.Key < b.Key
-	})
+	}
+	same := false
+	for i, x := range l {
+		if x.Detail == f.Detail {
+			same = true
+			if less(f, x) {
+				l[i] = f
+			}
+		}
+	}
+	if !same {
+		l = append(l, f)
+	}
+	sort.SliceStable(l, func(i, j int) bool { return less(l[i], l[j]) })
 	if len(l) > C06KeepPerClass {
 		l = l[:C06KeepPerClass]
 	}
@@ -222,10 +235,10 @@ func (d *c06Driver) runSeq(m *C06Mode, seq []*C06Frame, from int, canonical, cou
 	for k, fr := range seq {
 		out := c06Feed(p, fr)
 		want, cerr := m.Want(fr.B)
-		kind, cls, ord := "", "well-formed", 0
+		kind, cls, ord, detail := "", "well-formed", 0, m.Link.String()
 		if cerr != nil {
 			de := AsDecodeError(cerr)
-			cls, ord = de.Class(), de.Ord
+			cls, ord, detail = de.Class(), de.Ord, de.Detail+"/"+m.Link.String()
 		}
 		switch {
 		case out.pan != nil:
@@ -284,7 +297,7 @@ func (d *c06Driver) runSeq(m *C06Mode, seq []*C06Frame, from int, canonical, cou
 				desc += fmt.Sprintf("; the same frame given to a new processor: %s", fresh)
 			}
 			f := c06Finding{
-				Class: m.Proto + ":" + kind + ":" + cls, Key: m.Proto + ":" + kind + ":" + name, Desc: desc, Size: len(fr.B) + 4096*k, Ord: ord,
+				Class: m.Proto + ":" + kind + ":" + cls, Key: m.Proto + ":" + kind + ":" + name, Desc: desc, Detail: detail, Size: len(fr.B) + 4096*k, Ord: ord,
 				Replay: map[string]any{"part": d.part, "mode": m.Name, "history_hex": histHex, "frame_hex": DecHex(fr.B), "frame": fr.Name(), "got": out.String(), "reference": ref},
 			}
 			if counted {
@@ -341,7 +354,7 @@ func C06Run(env *C06Env, part string, modes []C06Mode) (rule string) {
 		for si := range m.Fam.Seeds {
 			s := &m.Fam.Seeds[si]
 			if _, err := m.Want(s.B); err != nil {
-				env.Fail("infra:seed:"+s.Name(), "seed frame is not well formed for the reference decoder: "+err.Error(), nil)
+				env.Infra("seed frame %s is not well formed for the reference decoder: %v", s.Name(), err)
 			}
 			nSeed++
 			d.single(m, s, true)
@@ -572,8 +585,9 @@ func C06IPFamilies(link Link, primary byte) *C06Families {
 		return BuildTCP(src, dst, 22, 51000, 7, 9, 0, TCPFin|TCPPsh|TCPUrg|TCPEce, 1024, nil, nil)
 	}
 	embedded := BuildIPv4(DecIPHdr{ID: 0x4242, TTL: 1, Proto: 17, Src: c06Dst, Dst: c06Src2}, BuildUDP(c06Dst, c06Src2, 40000, 53, nil))
-	icmpA := func(_, _ [4]byte) []byte { return BuildICMP(0, 0, 0x1234, 1, []byte("abcdefgh")) }
-	icmpB := func(_, _ [4]byte) []byte { return BuildICMP(3, 3, 0, 0, embedded) }
+	// the priming seed (A) must not look like a zero-valued decoder: type 3 code 3, not echo reply 0/0
+	icmpA := func(_, _ [4]byte) []byte { return BuildICMP(3, 3, 0, 0, embedded) }
+	icmpB := func(_, _ [4]byte) []byte { return BuildICMP(0, 0, 0x1234, 1, []byte("abcdefgh")) }
 	icmpC := func(_, _ [4]byte) []byte { return BuildICMP(11, 1, 0, 0, embedded[:20]) }
 	udpA := func(src, dst [4]byte) []byte { return BuildUDP(src, dst, 53, 40002, []byte("hello")) }
 	trA, trB, trC := tcpA, tcpB, tcpC
@@ -592,7 +606,7 @@ func C06IPFamilies(link Link, primary byte) *C06Families {
 		case 4:
 			return BuildIPv4(DecIPHdr{ID: 0x9999, TTL: 33, Proto: primary, Src: c06Inner, Dst: dst}, trA(c06Inner, dst)), "ip4(" + pn + ")"
 		}
-		return trA(src, dst), pn + "-bytes"
+		return trA(src, dst), fmt.Sprintf("p%d(%s-bytes)", p, pn)
 	}
 
 	seedA := wrap(BuildIPv4(DecIPHdr{ID: 0x1234, FlagsFrag: 0x4000, TTL: 57, Proto: primary, Src: c06Src, Dst: c06Dst}, trA(c06Src, c06Dst)))
@@ -679,9 +693,6 @@ func C06IPFamilies(link Link, primary byte) *C06Families {
 	for _, v := range []int{4, 0, 5, 6, 15} {
 		for ihl := 0; ihl <= 15; ihl++ {
 			for _, p := range []byte{primary, 1, 4, 6, 17, 41, 255} {
-				if p == primary && (p == 1 || p == 6) && false {
-					continue
-				}
 				real := realLen(ihl, p)
 				seenLen := map[int]bool{}
 				for _, tl := range []int{real, 0, 19, 20, ihl*4 - 1, ihl * 4, ihl*4 + 7, ihl*4 + 19, ihl*4 + 20, real - 1, real + 1, 65535} {
@@ -697,7 +708,7 @@ func C06IPFamilies(link Link, primary byte) *C06Families {
 			}
 		}
 	}
-	// the protocol list above names the primary twice when it is 1 or 6: drop exact duplicates
+	// the protocol list above names the primary twice: drop the repetition
 	fam.Small = c06Dedup(fam.Small)
 
 	// (c) TCP data offset x bytes present
@@ -705,7 +716,7 @@ func C06IPFamilies(link Link, primary byte) *C06Families {
 		for doff := 0; doff <= 15; doff++ {
 			seenN := map[int]bool{}
 			for _, n := range []int{20, 19, 24, doff*4 - 1, doff * 4, doff*4 + 3, 60} {
-				if n < 0 || seenN[n] {
+				if n < 0 || n > 60 || seenN[n] {
 					continue
 				}
 				seenN[n] = true
@@ -736,7 +747,7 @@ func C06IPFamilies(link Link, primary byte) *C06Families {
 		name := ""
 		switch {
 		case inner == 4:
-			b, name = nil, "ip4()"
+			name = "ip4()"
 			b = BuildIPv4(DecIPHdr{ID: 0x7777, TTL: 9, Proto: 4, Src: c06Inner, Dst: c06Dst}, nil)
 		case withPayload:
 			t, tn := transport(inner, c06Inner, c06Dst)
@@ -847,7 +858,7 @@ func C06IPFamilies(link Link, primary byte) *C06Families {
 	pick(
 		pre+"ip4(v=6)+"+pn, pre+"ip4(v=0)+"+pn, pre+"ip4(ihl=4)+"+pn, pre+"ip4(ihl=6)+"+pn, pre+"ip4(ihl=15)+"+pn,
 		pre+"ip4(len=0)+"+pn, pre+"ip4(len=19)+"+pn, pre+"ip4(len=20)+"+pn, pre+"ip4(len=39)+"+pn, pre+"ip4(len=65535)+"+pn,
-		pre+"ip4+udp", pre+"ip4+"+on, pre+"ip4+ip4("+pn+")", pre+"ip4+"+pn+"-bytes", pre+"ip4(ff=2000)+"+pn, pre+"ip4(ff=0001)+"+pn,
+		pre+"ip4+udp", pre+"ip4+"+on, pre+"ip4+ip4("+pn+")", pre+"ip4+p255("+pn+"-bytes)", pre+"ip4(ff=2000)+"+pn, pre+"ip4(ff=0001)+"+pn,
 		pre+"ip4(ff=20b9)+"+pn, pre+"ip4(ff=8000)+"+pn, pre+"ip4(ff=4000)+udp", pre+"ip4(ihl=6)+udp", pre+"ip4(len=0)+udp", pre+"ip4(v=6)+udp",
 		pre+"ip4+ip4(tcp)", pre+"ip4+ip4(udp)", pre+"ip4+ip4(icmp)", pre+"ip4+ip4()", pre+"ip4+ip4(udp:absent)", pre+"ip4+ip4("+pn+":absent)",
 		pre+"ip4+ip4+ip4(udp)", pre+"ip4+ip4+ip4("+pn+")", pre+"ip4+ip4+ip4+ip4(udp)", pre+"ip4+ip4+ip4()",
@@ -859,12 +870,13 @@ func C06IPFamilies(link Link, primary byte) *C06Families {
 			pre+"ip4+tcp(option-len=0)", pre+"ip4+tcp(option-len=9>4)")
 	}
 	if link == LinkEthernet {
-		pick("eth(0806)+arp", "eth(86dd)+ip4("+pn+")", "eth(8100)+tag(0800)+ip4("+pn+")", "eth(002e)+ip4("+pn+")", "eth(88b5)+ip4("+pn+")"[:0]+"eth(ffff)+ip4("+pn+")",
+		pick("eth(0806)+arp", "eth(86dd)+ip4("+pn+")", "eth(8100)+tag(0800)+ip4("+pn+")", "eth(002e)+ip4("+pn+")", "eth(ffff)+ip4("+pn+")",
 			"eth(6558)+eth(0800)+ip4("+pn+")", "eth(6558)+eth(0800)+ip4(udp)", "eth(6558)+eth(0800)", "eth(6558)+eth(88b5)+junk", "eth(6558)+eth(0806)+arp",
 			"eth(6558)+eth(6558)+eth(0800)+ip4(udp)", "eth(6558)", "eth(0800)", "eth(0800)+1byte")
 	} else {
 		pick("vpn:ethernet-frame", "vpn:1byte", "vpn:ipv6")
 	}
+	fam.Reps = c06Dedup(fam.Reps)
 	return fam
 }
 
